@@ -237,9 +237,15 @@ def r2(ctx, fn, ms):
     ctx.check("R11.2", "create:input-skips", ok_in, "input-skip-wiring:" + short(";".join(got), 120), c.loc(cf), "{i*length: [0]} for i in 1..loops iff inskips")
     ctx.check("R11.2", "create:output-skips", ok_out, "output-skip-wiring:" + short(";".join(got), 120), c.loc(cf), "{loops*length: [i*length for i in 1..loops]} iff outskips")
     # forward: keys
-    lp = [x for x in walk(fn["body"]) if x.get("k") == "for" and "self.layers.iter().enumerate()" == pretty(strip(x["iter"]))]
+    # the walk over the positions: the outermost loop holding the in-loop accumulation, over self.layers enumerated or over 0..self.layers.len()
+    from ..hir import let_table as _lt2, cpretty as _cp2
+    TT0 = _lt2(fn["body"])
+    lp = [x for x in top_stmts_of(fn["body"]) if x.get("k") == "for" and any(y is ms[0] for y in walk(x))
+          and (pretty(strip(x["iter"])) == "self.layers.iter().enumerate()"
+               or (strip(x["iter"]).get("k") == "struct" and strip(x["iter"])["path"] == "std::ops::Range"
+                   and [_cp2(b_, TT0) for a_, b_ in strip(x["iter"])["fs"]] == ["0", "self.layers.len()"]))]
     if len(lp) != 1:
-        raise Unestablished("Feedback::forward: no enumerate loop over self.layers", c.loc(fn))
+        raise Unestablished("Feedback::forward: no walk over the positions of self.layers holding the accumulation", c.loc(fn))
     lp = lp[0]
     ih = pat_binds(lp["pat"])[0][1]
     from .common import map_guard, is_lookup
@@ -320,11 +326,12 @@ def r3(ctx, fn, lp):
     S = E.loop_summaries[lid]
     it = S["iter"]
     lnode = S["node"]
-    args_ = e5.is_call(it, "enumerate", 1)
-    ok_it = args_ is not None and args_[0] == ("field", ("p", "self"), "layers")
-    ctx.check("R11.3", "walks-positions-in-order", ok_it, "position-walk:" + short(e5.show(it, 2), 60), c.loc(fn, lnode), "for (i, layer) in self.layers.iter().enumerate()")
+    sw_ = e5.seq_walk(it, lid, ("field", ("p", "self"), "layers"))
+    layer_t = e5.walk_element(S["paths"], sw_["fwd"]) if sw_ and sw_["fwd"] and sw_["pos"]["fwd"] is not None else None
+    ctx.check("R11.3", "walks-positions-in-order", layer_t is not None, "position-walk:" + short(e5.show(it, 2), 60), c.loc(fn, lnode), "for (i, layer) in self.layers.iter().enumerate()")
+    if layer_t is None:
+        return
     elem = ("elem", it, lid)
-    layer_t = e5.mk_proj(elem, 1)
     # roles from the returned tuple: (first pre, final output, maxpools, unactivated, activated)
     ret = fpaths[0].val if fpaths[0].exit is None else fpaths[0].exit[1]
     comps = ret[1] if isinstance(ret, tuple) and ret and ret[0] == "tup" else ()
